@@ -60,15 +60,18 @@ _S = {"ctx": None, "srot": None, "reg": {}}
 
 
 def plan(tier):
+    # Floors: vmon/core.py requires HALF of the stated figure.  Every figure below is 1.6 x the evaluations that the DRIVER'S OWN
+    # direct calls produce (measured with VERIF_BYPASS_INTERNAL=1, i.e. with the monitors blind to calls made from inside the cryocat
+    # package), so the effective floor is ~80% of the driver-only count and holds whatever cryoCAT's internal call structure is.
     if tier == "quick":
         return dict(n_cases=1200, shards=1, classes=CLASSES, timeout_s=600,
-                    min_evals={"angdist": 10000, "cone": 8000, "inplane": 10000, "cone_inplane": 7500, "compare": 4400,
-                               "e2n": 2000, "n2e": 800, "viz": 6000, "symmetry": 700, "zero_equal": 7500, "invariance": 1400,
-                               "triangle": 700, "dispatch": 2800, "n2e_roundtrip": 800})
+                    min_evals={"angdist": 11500, "cone": 7600, "inplane": 8900, "cone_inplane": 6100, "compare": 8700,
+                               "e2n": 5100, "n2e": 1350, "viz": 7500, "symmetry": 1280, "zero_equal": 14500, "invariance": 2550,
+                               "triangle": 1280, "dispatch": 5100, "n2e_roundtrip": 1340})
     return dict(n_cases=16000, shards=16, classes=CLASSES, timeout_s=3000,
-                min_evals={"angdist": 125000, "cone": 100000, "inplane": 124000, "cone_inplane": 93000, "compare": 54000,
-                           "e2n": 24000, "n2e": 8400, "viz": 80000, "symmetry": 7800, "zero_equal": 92000,
-                           "invariance": 15500, "triangle": 7800, "dispatch": 31000, "n2e_roundtrip": 8400})
+                min_evals={"angdist": 150000, "cone": 99000, "inplane": 116000, "cone_inplane": 82000, "compare": 115000,
+                           "e2n": 67000, "n2e": 17900, "viz": 100000, "symmetry": 16600, "zero_equal": 196000,
+                           "invariance": 33000, "triangle": 16600, "dispatch": 66000, "n2e_roundtrip": 17900})
 
 
 # ---- reading the inputs of an observed call ----------------------------------------------------------
@@ -778,6 +781,7 @@ def equal_orientation_suite(ctx, E1, E2, single=False, label="alias"):
             good, w = False, {"call": name, "problem": "result not usable: %s" % type(e).__name__}
         ctx.check("zero_equal", good, w)
     ctx.call("angular_distance(array,array)", g.angular_distance, arr(E1), arr(E2))     # judged by the angdist monitor (0 expected)
+    ctx.call("cone_distance(Rotation,Rotation)", g.cone_distance, rot(M1), rot(M2))      # direct call: cone monitor (0 expected)
     return int(differ.sum())
 
 
@@ -836,9 +840,20 @@ def pair_suite(ctx, rng, XA, XB, XC, Q, forms, radius=1.0, tag="", light=False):
             ctx.check("zero_equal", ok, w)
         else:
             ctx.ood("zero_equal")
-    # cone / in-plane on Rotation objects (judged by the call monitors), pair and dispatch
+    # cone / in-plane on Rotation objects (judged by the call monitors), pair and dispatch.
+    # These public functions are called DIRECTLY by the driver on every pairing of the triple (fresh Rotation objects, positional and
+    # documented keyword forms): the floors of the cone / inplane monitors must be reached by the driver's own calls and must not
+    # depend on cone_inplane_distance / compare_rotations happening to route through them (tools/audit_call_structure.sh).
+    rc = as_rotation(ctx, Mc, single)
     ctx.call("cone_distance", g.cone_distance, ra, rb)
+    ctx.call("cone_distance", g.cone_distance, as_rotation(ctx, Mb, single), as_rotation(ctx, Ma, single))
+    ctx.call("cone_distance", g.cone_distance, input_rot1=ra, input_rot2=rc)
+    ctx.call("cone_distance", g.cone_distance, rb, rc)
+    ctx.call("cone_distance", g.cone_distance, ra, ra2)
     ok_i, ip_ab = ctx.call("inplane_distance", g.inplane_distance, ra, rb)
+    ctx.call("inplane_distance", g.inplane_distance, as_rotation(ctx, Mb, single), as_rotation(ctx, Ma, single))
+    ctx.call("inplane_distance", g.inplane_distance, input_rot1=ra, input_rot2=rc, convention="zxz", degrees=True, c_symmetry=1)
+    ctx.call("inplane_distance", g.inplane_distance, rb, rc, "zxz", True)
     ok_ci, ci_ab = ctx.call("cone_inplane_distance", g.cone_inplane_distance, a, b)
     if ok_ci and isinstance(ci_ab, tuple) and len(ci_ab) == 2:
         direct = {"angular_distance": d_ab, "cone_distance": ci_ab[0], "in_plane_distance": ci_ab[1]}
@@ -898,6 +913,14 @@ def pair_suite(ctx, rng, XA, XB, XC, Q, forms, radius=1.0, tag="", light=False):
     ctx.call("visualize_angles", g.visualize_angles, EA, plot_rotations=False)
     ctx.call("visualize_rotations", g.visualize_rotations, ra, plot_rotations=False, radius=radius)
     ctx.call("visualize_rotations", g.visualize_rotations, rb, False, None, 20, 1.0, 1.0)
+    # direct calls on the other two batches as well (the viz floor must not rest on euler_angles_to_normals -> visualize_angles ->
+    # visualize_rotations being the route inside cryoCAT)
+    EB, _ = present(ctx, XB, "euler", rng)
+    EC, _ = present(ctx, XC, "euler", rng)
+    ctx.call("visualize_angles", g.visualize_angles, EB.copy(), False)
+    ctx.call("visualize_angles", g.visualize_angles, angles=EC.copy(), plot_rotations=False, color_map=None)
+    ctx.call("visualize_rotations", g.visualize_rotations, rotations=rc, plot_rotations=False, radius=radius)
+    ctx.call("euler_angles_to_normals", g.euler_angles_to_normals, angles=EB.copy())
 
 
 def run_rot(ctx, case):
